@@ -19,6 +19,9 @@ def run_cases(fn, cases, rule, bound, budget_s):
         try:
             fails = fn(case)
         except Exception as e:
+            if type(e).__name__ == 'SolverError':
+                # the external solver gave up numerically (cvxpy SolverError): A1, the scenario decides nothing
+                continue
             fails = [sc.fail(fn.__name__ + '.raised', fn.__name__, case, case, f'{type(e).__name__}: {e} | ' + traceback.format_exc(limit=2)[-300:])]
             fails[0]['error'] = True
         ev += 1
@@ -129,11 +132,11 @@ def unit_commitment(prop, tier, seed):
     for T in (4, 5):
         for mr in (0, 2, 3):
             for md in (0, 2, 3):
-                for (tar, tao) in ((0, 0), (0, 1), (1, 0), (2, 0), (0, 2)):
+                for (tar, tao) in ((0, 1), (1, 0), (2, 0), (0, 2), (3, 0)):     # (the constructor refuses 0/0: exactly one of the two is positive)
                     cases.append(dict(T=T, mr=mr, md=md, tar=tar, tao=tao))
     rng.shuffle(cases)
     return dict(bounded=run_cases(sc.check_uc, cases[:_n(tier, 6, 40)], 'Plant on an hourly grid: ALL 2^T on/off patterns pinned in the real assembled MIP, feasibility (SCIP) vs reference predicate (runtime, downtime, initial state)',
-                                  'T in {4,5}, min runtime/downtime in {0,2,3}, 5 initial states; quick: seeded sample of 6 parameter sets x 2^T patterns', 80 if tier == 'quick' else 900))
+                                  'T in {4,5}, min runtime/downtime in {0,2,3}, 5 initial states (running 1-3 / off 1-2 steps); quick: seeded sample of 6 parameter sets x 2^T patterns', 80 if tier == 'quick' else 900))
 
 
 @provider('C16')
